@@ -116,6 +116,8 @@ class World:
             if v != v or v in (math.inf, -math.inf):
                 return v
             return Fraction(v)
+        if isinstance(v, tuple) and hasattr(v, "_fields"):
+            return Obj(type(v), **{k: self.lift(getattr(v, k)) for k in v._fields})
         if isinstance(v, tuple):
             return tuple(self.lift(x) for x in v)
         if isinstance(v, list):
@@ -493,6 +495,11 @@ class World:
     def call_repo(self, ex, st, fn, args, kw, line, owner=None):
         qn = qualname_of(fn)
         entry = REGISTRY.get(qn)
+        force_inline = ex.case is not None and qn in (ex.case.options().get("transparent") or ())
+        if force_inline:
+            self.transparent_used.add(qn)
+            yield from ex.call_function_source(st, fn, args, kw, line, defclass=owner)
+            return
         if entry is not None and not (ex.inline_self and qn == ex.owner_qualname):
             yield from self.call_contract(ex, st, entry, fn, args, kw, line)
             return
@@ -562,6 +569,16 @@ class World:
         if h is not None:
             self.assumed_used.add(h[1])
             yield from h[0](ex, st, args, kw, line)
+            return
+        if issubclass(cls, tuple) and hasattr(cls, "_fields"):
+            # typing.NamedTuple: a record with the declared fields
+            fields = cls._fields
+            if len(args) + len(kw) != len(fields) or any(k not in fields for k in kw):
+                ex.pending_raise(st, ExcVal(TypeError, line=line))
+                return
+            vals = dict(zip(fields, args))
+            vals.update(kw)
+            yield st, Obj(cls, **vals)
             return
         new, nowner = self.mro_find(cls, "__new__")
         if isinstance(new, staticmethod):
@@ -881,7 +898,7 @@ class World:
 
     def symstr_compare(self, op, a, b, line):
         if isinstance(a, SymName) and isinstance(b, SymName):
-            r = sym.eq(a.tok, b.tok)
+            r = True if a.tok is b.tok else sym.eq(a.tok, b.tok)
         elif isinstance(a, SymName) or isinstance(b, SymName):
             sn, other = (a, b) if isinstance(a, SymName) else (b, a)
             if other is None:
